@@ -383,6 +383,10 @@ def shards(tier, seed):
     out += [{'what': 'int_segment', 'shape': n} for n in INT_SEGMENTS]
     out += AB.provenance_shards(out, tier, lambda d: d['what'] == 'path' and d['path'] not in RAW, key='pprov')
     out += AB.provenance_shards(out, tier, lambda d: d['what'] == 'segment' and d.get('scale', 1.0) == 1.0 or (d['what'] == 'sequence' and d['rot'] == 0 and tier == 'quick'))
+    # arcs with the documented module switch USE_SCIPY_QUAD off, and arcs constructed with autoscale_radius=False
+    out += [{'what': 'segment', 'shape': n, 'rot': r, 'scale': 1.0, 'module': {'USE_SCIPY_QUAD': False}} for n in AB.ARCS for r in (0, 37)]
+    out += [{'what': 'path', 'path': n, 'module': {'USE_SCIPY_QUAD': False}} for n in all_paths(tier) if any(x.startswith('A_') for x in all_paths(tier)[n][0])]
+    out += [d for d in ({'what': 'segment', 'shape': n, 'rot': r, 'scale': 1.0, 'prov': 'strict_arc'} for n in AB.ARCS for r in (0, 37)) if d not in out]
     out += [{'what': 'sequence', 'shape': n, 'rot': r, 'depth': 2 if tier == 'quick' else 4}
             for n in (list(AB.LINES) + list(AB.QUADS) + list(AB.CUBICS) + list(AB.ARCS)) for r in ([0] if tier == 'quick' else [0, 37, 211])]
     return out
